@@ -109,6 +109,34 @@ PROPS = {
         "partial": ["float rounding ('few ulps') clause not modelled", "a value computed but never used on the taken path is not checked for overflow"],
         "selfcheck": {"quick": 200, "thorough": 1000},
     },
+    "C12": {
+        "claimed": True,
+        "technique": "Coq proof over translated programs (ring/field/nsatz, sin/cos addition formulas, acos) for the generic code; hand-written Gallina model of the non-generic integer impls with theorems, extracted to OCaml and run against the real code on the same inputs",
+        "level_text": "scalar/vector/quaternion/Transform Lerp (109 entry points): from at 0, to at 1, affine in the factor, fast = precise, clamped = unclamped o clamp01, range/reference/per-element-factor forms, for ALL inputs; quaternion Lerp returns a unit quaternion parallel to the component lerp; slerp of unit quaternions outside the near-parallel band stays unit, has p.r = cos(t*theta) with theta = acos|p.q| (shorter arc, constant angular speed) and reaches p and +-q; Transform lerp = (lerp, slerp, lerp); all 8 Transition accessors (identity and arbitrary mapper g) equal lerp*(start,end,g(progress)). Integer Lerp: model IntLerp.ilerp = saturate(round-half-away((from*2^sh + num*(to-from))/2^sh)) with theorems (exact endpoints incl. range limits, result between the endpoints also for to<from, nearest-rounding bound); the extracted model agrees with the real u8/i8 code on every endpoint pair and with sampled 16..64-bit types, both formulas (1.8M cases quick). The fast formula subtracted in the integer type on the pinned tree (u8 to<from panicked / wrapped): repaired by a fix: commit.",
+        "level_note": "Trusted: Coq kernel; stdlib real-number axioms as printed; symx translator; extraction (ExtrOcamlBasic only, Z kept as Coq's binary Z, decimal IO through two extracted helpers zpush/zdigits, no Extract Constant) + OCaml 4.13 + the line-parsing driver coq/extract/driver_c12.ml; float arithmetic is exact on the correspondence inputs by construction (dyadic factors, small endpoints). Float rounding of the real-valued formulas is not modelled.",
+        "design_ref": "DESIGN.md section 7, C12",
+        "assumptions": ["exact real arithmetic for float Lerp/slerp", "integer impls: model tied to the code by differential execution, not by translation"],
+        "partial": ["integer Lerp impls are modelled by hand (Engine B): theorem about the model + exhaustive 8-bit / sampled wider correspondence, not a proof about the code"],
+    },
 }
+
+def extra_C12(tier, seed, ROOT, SYMX, sh):
+    """Engine B leg: extracted Coq model of the integer Lerp impls vs. the real code on the same inputs."""
+    import os, re
+    rc, out, dt = sh([os.path.join(ROOT, "bin", "corr12"), tier, str(seed)], timeout=1800)
+    m = re.search(r"CORR12 cases=(\d+) disagreements=(\d+)", out)
+    cases = int(m.group(1)) if m else 0; dis = int(m.group(2)) if m else -1
+    extra = {"traces_validated_against_impl": cases, "int_lerp_correspondence": {"cases": cases, "disagreements": dis, "wall_s": round(dt, 1),
+             "rule": "every (from,to) pair of u8 and i8 (quick: all pairs x 2 factors + a 1/3 sub-lattice x 6 factors; thorough: all pairs x 13 factors) and seeded samples of the 16/32/64-bit and pointer-sized types, factor = num/2^sh so that f32/f64 arithmetic is exact; both formulas, by value and by reference",
+             "samples": [l[7:] for l in out.split("\n") if l.startswith("SAMPLE ")]}}
+    problems = []; wit = []
+    if rc != 0 or dis != 0:
+        lines = [l for l in out.split("\n") if l.startswith("DISAGREE")]
+        problems.append({"kind": "correspondence", "what": "integer Lerp: the real code disagrees with the extracted Coq model IntLerp.ilerp (for which C12_int_* are proved), i.e. the result is not the real value rounded to nearest", "detail": (lines[:5] or [out[-800:]])})
+        for l in lines[:5]:
+            mm = re.match(r"DISAGREE impl=\[(\S+) (\S+) (\S+) (\S+) (\S+) (\S+) (\S+) (\S+)\] model=\[.* (\S+)\]", l)
+            if mm: wit.append({"entry": "corr12:" + mm.group(1), "status": "differs", "input": {"from": mm.group(4), "to": mm.group(5), "factor": "%s/2^%s" % (mm.group(6), mm.group(7))},
+                               "expected_by_verified_model": mm.group(9), "implementation": mm.group(8)})
+    return problems, extra, wit
 
 for _k in PROPS: PROPS[_k].setdefault("selfcheck", {"quick": 200, "thorough": 5000})
